@@ -37,7 +37,7 @@ def SInv (s : Series) (gs : List (List (Int × Hist))) : Prop := All2 CInv (s.cu
 
 theorem CInv.empty (float : Bool) : CInv (Chunk.empty float) [] :=
   ⟨trivial, by simp [Chunk.empty, idxs_nil], by simp [Chunk.empty, idxs_nil], by simp, by simp, trivial,
-    by simp [Chunk.empty], by simp [Chunk.empty]⟩
+    by simp [Chunk.empty], by simp [Chunk.empty], fun _ => trivial⟩
 
 theorem CInv.nil_of_empty (c : Chunk) (l : List (Int × Hist)) (inv : CInv c l) (he : c.rev = []) : l = [] := by
   have := inv.rep; rw [he] at this
